@@ -98,7 +98,10 @@ func extractFromPath(path *Path, data []byte, optFuncs ...DecodeOptionFunc) ([][
 	ctx.Buf = src
 	ctx.Option.Flags = 0
 	ctx.Option.Flags |= decoder.PathOption
-	ctx.Option.Path = path.path
+	// evaluation advances a cursor stored in the Path: work on a copy so that the caller's Path is never
+	// modified (it stays usable after a failed extraction and may be shared between goroutines)
+	evalPath := *path.path
+	ctx.Option.Path = &evalPath
 	for _, optFunc := range optFuncs {
 		optFunc(ctx.Option)
 	}
